@@ -414,6 +414,10 @@ func validateSecurityRequirement(ctx context.Context, input *RequestValidationIn
 	}
 	f := options.AuthenticationFunc
 	if f == nil {
+		if len(names) == 0 {
+			// an empty requirement: nothing to authenticate
+			return nil
+		}
 		return ErrAuthenticationServiceMissing
 	}
 
